@@ -146,3 +146,14 @@ package common
 //@   loop 0 invariant rangeindex < len(s.Scripts) && forall j int :: 0 <= j && j <= rangeindex ==> nsEval(&s.Scripts[j], ctx)
 //@   loop 1 invariant rangeindex < len(s.Scripts) && forall j int :: 0 <= j && j <= rangeindex ==> !nsEval(&s.Scripts[j], ctx)
 //@   loop 2 invariant rangeindex < len(s.Scripts) && count <= uint(rangeindex + 1) && count == nsCount(s.Scripts, ctx, rangeindex + 1)
+
+// C29: the public entry point evaluates the recursive semantics in the context it is given, with no
+// guard credentials; a script's hash is Blake2b-224 of a zero byte followed by its stored encoding.
+//@ func (n *NativeScript) Evaluate(slot, validityStart, validityEnd, keyHashes) (r)
+//@   props C29
+//@   pure
+//@   ensures def: r == nsEval(n, mk(type(nativeScriptEvalContext), validityStart, validityEnd, keyHashes, nil))
+
+//@ func (s NativeScript) Hash() (h)
+//@   props C29
+//@   ensures def: h == H224(cat(byteseq(0), seq(s.DecodeStoreCbor.cborData)))
